@@ -253,7 +253,8 @@ pub struct DPlan {
 pub const CONT_NAMES: [&str; 14] = ["Vec", "Box<[_]>", "[_;0]", "[_;1]", "[_;2]", "[_;3]", "[_;4]", "(_,)", "(_,_)", "(_,_,_)", "(_;4)", "(_;5)", "(_;6)", "(_;7)"];
 
 pub fn gen_plan(src: &mut Src<'_>) -> DPlan {
-	let leaf = src.pick(3) as u8;
+	// 3 = locks over a zero-sized payload with a destructor
+	let leaf = if src.chance(24) { 3 } else { src.pick(3) as u8 };
 	let cont = src.pick(14) as u8;
 	let n = match cont {
 		0 | 1 => src.pick(5),
@@ -779,7 +780,110 @@ where
 	DOutcome { findings, labels }
 }
 
+// ---------------------------------------------------------------------------
+// zero-sized payloads: nothing to move, but still exactly one drop each
+
+thread_local! {
+	static ZDROPS: std::cell::Cell<usize> = const { std::cell::Cell::new(0) };
+}
+
+/// a value of size 0 with a destructor
+pub struct ZTok;
+
+impl Drop for ZTok {
+	fn drop(&mut self) {
+		ZDROPS.with(|c| c.set(c.get() + 1));
+	}
+}
+
+impl std::fmt::Debug for ZTok {
+	fn fmt(&self, f: &mut std::fmt::Formatter<'_>) -> std::fmt::Result {
+		f.write_str("ZTok")
+	}
+}
+
+fn zdrops() -> usize {
+	ZDROPS.with(|c| c.get())
+}
+
+/// One collection over `n` locks with zero-sized payloads, through one end of
+/// life.  `taken_apart` must return the payloads (as anything that owns them).
+fn zst_round<K, I>(what: &str, plan: &DPlan, n: usize, coll: K, findings: &mut Vec<Finding>, into_inner: impl FnOnce(K) -> I, via_child: impl FnOnce(K) -> I) {
+	ZDROPS.with(|c| c.set(0));
+	let early = |stage: &str, findings: &mut Vec<Finding>| {
+		let d = zdrops();
+		if d != 0 {
+			findings.push(finding(
+				format!("zst-dropped-early|{what}|{stage}"),
+				format!("{d} zero-sized payloads were dropped by {stage} of {what} although all {n} of them were handed to the caller (plan {plan:?})"),
+			));
+		}
+	};
+	match plan.end {
+		DEnd::IntoInner | DEnd::ExtendThenIntoInner => {
+			let inner = into_inner(coll);
+			early("into_inner", findings);
+			drop(inner);
+		}
+		DEnd::IntoChild | DEnd::IntoIter => {
+			let inner = via_child(coll);
+			early("into_child().into_inner()", findings);
+			drop(inner);
+		}
+		_ => drop(coll),
+	}
+	let d = zdrops();
+	if d != n {
+		findings.push(finding(
+			format!("zst-drop-count|{what}|{:?}", plan.end),
+			format!("{n} zero-sized payloads went into {what}, {d} destructors ran when everything was gone (plan {plan:?})"),
+		));
+	}
+}
+
+fn run_zst_plan(plan: &DPlan) -> DOutcome {
+	type ZM = Mutex<ZTok>;
+	type ZR = RwLock<ZTok>;
+	let mut findings = Vec::new();
+	let n = plan.n.min(4);
+	let zm = |k: usize| -> Vec<ZM> { (0..k).map(|_| Mutex::new(ZTok)).collect() };
+	let zr = |k: usize| -> Vec<ZR> { (0..k).map(|_| RwLock::new(ZTok)).collect() };
+	let kind = match plan.kind {
+		DKind::OwnedNew | DKind::OwnedFrom | DKind::OwnedFromIter => 1,
+		DKind::RetryNew | DKind::RetryFrom | DKind::RetryTryNew | DKind::RetryNewRef | DKind::RetryFromIter | DKind::RetryRejected => 2,
+		_ => 0,
+	};
+	let shape = plan.cont % 5;
+	let what = format!("{}<{}>", ["Boxed", "Owned", "Retry"][kind], ["Vec<Mutex<Z>>", "Box<[RwLock<Z>]>", "[Mutex<Z>;2]", "(Mutex<Z>,RwLock<Z>)", "Vec<[Mutex<Z>;2]>"][shape as usize]);
+	macro_rules! kinds {
+		($child:expr, $n:expr) => {{
+			let child = $child;
+			match kind {
+				0 => zst_round(&what, plan, $n, Boxed::new(child), &mut findings, |c| c.into_inner(), |c| LockableIntoInner::into_inner(c.into_child())),
+				1 => zst_round(&what, plan, $n, Owned::new(child), &mut findings, |c| c.into_inner(), |c| LockableIntoInner::into_inner(c.into_child())),
+				_ => zst_round(&what, plan, $n, Retry::new(child), &mut findings, |c| c.into_inner(), |c| LockableIntoInner::into_inner(c.into_child())),
+			}
+		}};
+	}
+	match shape {
+		0 => kinds!(zm(n), n),
+		1 => kinds!(zr(n).into_boxed_slice(), n),
+		2 => kinds!([Mutex::new(ZTok), Mutex::new(ZTok)], 2),
+		3 => kinds!((Mutex::new(ZTok), RwLock::new(ZTok)), 2),
+		_ => kinds!((0..n).map(|_| [Mutex::new(ZTok), Mutex::new(ZTok)]).collect::<Vec<[ZM; 2]>>(), 2 * n),
+	}
+	DOutcome { findings, labels: vec!["c16.leaf.zero-sized".into(), format!("c16.end.{:?}", plan.end)] }
+}
+
 pub fn run_plan(plan: &DPlan) -> DOutcome {
+	if plan.leaf == 3 {
+		let (out, double_free) = crate::quarantine::with_quarantine(|| std::panic::catch_unwind(std::panic::AssertUnwindSafe(|| run_zst_plan(plan))));
+		let mut out = out.unwrap_or_else(|_| DOutcome { findings: vec![finding(format!("panicked|zero-sized|{:?}", plan.end), format!("a path over zero-sized payloads panicked (plan {plan:?})"))], labels: vec![] });
+		if double_free {
+			out.findings.push(finding(format!("double-free|zero-sized|{:?}", plan.end), format!("a heap block was freed twice (plan {plan:?})")));
+		}
+		return out;
+	}
 	let vec_path = matches!(plan.kind, DKind::BoxedFromIter | DKind::OwnedFromIter | DKind::RetryFromIter);
 	let (out, double_free) = crate::quarantine::with_quarantine(|| {
 		std::panic::catch_unwind(std::panic::AssertUnwindSafe(|| match (vec_path, plan.leaf) {
